@@ -295,32 +295,43 @@ def grad_block(f, a, b, order=1):
     return out
 
 
-def grad_layout(f, x1, x2, order=1, coincident=None):
+def grad_layout(f, x1, x2, order=1, near_block=None, near_r=None):
     """(n1 w) x (n2 w) matrix in the per-point interleaved layout: rows i*w + u, columns j*w + v.
-    coincident(a): optional closed-form block for a pair of exactly equal rows (kernels whose formula goes through sqrt(0))"""
+    near_block(a, b) / near_r(a, b): optional closed-form block used for pairs with near_r(a, b) < 1e-3, for kernels whose formula goes
+    through sqrt(r^2): autograd is undefined at r = 0 and its second derivatives lose eps / r to cancellation for r -> 0"""
     n1, n2, D = x1.shape[0], x2.shape[0], x1.shape[-1]
     w = 1 + D * order
     out = torch.zeros(n1 * w, n2 * w, dtype=torch.float64)
     for i in range(n1):
         for j in range(n2):
-            if coincident is not None and bool((x1[i] == x2[j]).all()):
-                blk = coincident(x1[i])
+            if near_block is not None and float(near_r(x1[i], x2[j])) < 1e-3:
+                blk = near_block(x1[i], x2[j])
             else:
                 blk = grad_block(f, x1[i], x2[j], order)
             out[i * w:(i + 1) * w, j * w:(j + 1) * w] = blk
     return out
 
 
-def matern52_grad_coincident(ls):
-    """limit of the (value, gradient) block of the Matern-5/2 kernel at a = b: [[1, 0], [0, 5/3 diag(1/l_i^2)]]
-    (equals the docstring's Hessian formula at r = 0; validated against a symmetric perturbation in _selftest)"""
+def scaled_dist(ls):
+    return lambda a, b: _safe_norm(((a - b) / ls).detach())
 
-    def blk(a):
+
+def matern52_grad_closed(ls):
+    """the (value, gradient) block of the Matern-5/2 kernel in closed form, as printed in the docstring of Matern52KernelGrad
+    (validated against the autograd block at generic pairs and against a symmetric limit at a = b in _selftest)"""
+    s5 = math.sqrt(5.0)
+
+    def blk(a, b):
         D = a.shape[-1]
-        out = torch.zeros(1 + D, 1 + D, dtype=torch.float64)
-        out[0, 0] = 1.0
         l2 = (ls * torch.ones(D, dtype=torch.float64)) ** 2
-        out[1:, 1:] = torch.diag(5.0 / 3.0 / l2)
+        diff = (a - b) / l2
+        r = _safe_norm((a - b) / ls)
+        e = torch.exp(-s5 * r)
+        out = torch.zeros(1 + D, 1 + D, dtype=torch.float64)
+        out[0, 0] = (1.0 + s5 * r + 5.0 / 3.0 * r ** 2) * e
+        out[0, 1:] = 5.0 / 3.0 * (1.0 + s5 * r) * e * diff
+        out[1:, 0] = -5.0 / 3.0 * (1.0 + s5 * r) * e * diff
+        out[1:, 1:] = -5.0 / 3.0 * e * (5.0 * torch.outer(diff, diff) - torch.diag(1.0 / l2) * (1.0 + s5 * r))
         return out
 
     return blk
@@ -335,23 +346,29 @@ def _selftest():
     for nu in (0.5, 1.5, 2.5):
         e = (pairwise(matern(ls, nu), x1, x2) - pairwise(matern_bessel(ls, nu), x1, x2)).abs().max()
         assert e < 1e-13, (nu, e)
-    # Matern-5/2 coincident block = symmetric limit of the autograd block
+    # Matern-5/2 closed-form block: = autograd block at generic pairs, = symmetric limit of the autograd block at a = b
+    f = matern(ls, 2.5)
+    closed = matern52_grad_closed(ls)
+    for a in x1:
+        for b in x2:
+            assert (grad_block(f, a, b) - closed(a, b)).abs().max() < 1e-13
     a = x1[0]
     h = 1e-4 * torch.tensor([0.6, -0.8])
-    f = matern(ls, 2.5)
     lim = 0.5 * (grad_block(f, a, a + h) + grad_block(f, a, a - h))
-    e = (lim - matern52_grad_coincident(ls)(a)).abs().max()
-    assert e < 1e-6, e
-    # docstring formulas of Matern52KernelGrad at a generic pair
-    a, b = x1[1], x2[0]
-    blk = grad_block(f, a, b)
-    diff = (a - b) / ls ** 2
-    r = (((a - b) / ls) ** 2).sum().sqrt()
-    s5 = math.sqrt(5)
-    assert (blk[0, 1:] - 5 / 3 * (1 + s5 * r) * torch.exp(-s5 * r) * diff).abs().max() < 1e-13
-    assert (blk[1:, 0] + 5 / 3 * (1 + s5 * r) * torch.exp(-s5 * r) * diff).abs().max() < 1e-13
-    H = -5 / 3 * torch.exp(-s5 * r) * (5 * torch.outer(diff, diff) - torch.diag(1 / ls ** 2) * (1 + s5 * r))
-    assert (blk[1:, 1:] - H).abs().max() < 1e-13
+    assert (lim - closed(a, a)).abs().max() < 1e-6
+    # ... and the autograd block really is ill-conditioned at r ~ 1e-9 while the closed form is not (mpmath, 40 digits)
+    import mpmath
+    mpmath.mp.dps = 40
+    l0, l1 = [mpmath.mpf(float(v)) for v in ls]
+
+    def kmp(a0, a1, b0, b1):
+        r = mpmath.sqrt(((a0 - b0) / l0) ** 2 + ((a1 - b1) / l1) ** 2)
+        return (1 + mpmath.sqrt(5) * r + mpmath.mpf(5) / 3 * r ** 2) * mpmath.exp(-mpmath.sqrt(5) * r)
+
+    b = a + torch.tensor([1e-9, 1e-9])
+    pt = [mpmath.mpf(float(v)) for v in (a[0], a[1], b[0], b[1])]
+    hess00 = float(mpmath.diff(kmp, pt, (1, 0, 1, 0)))
+    assert abs(float(closed(a, b)[1, 1]) - hess00) < 1e-12, (float(closed(a, b)[1, 1]), hess00)
     # elementary symmetric polynomials vs the expansion of prod (1 + t z_i)
     z = [torch.tensor(v) for v in (0.3, -1.2, 2.0)]
     assert abs(float(elementary_symmetric(z, 2)) - (0.3 * -1.2 + 0.3 * 2.0 - 1.2 * 2.0)) < 1e-15
